@@ -14,6 +14,7 @@ func init() {
 			"R12.3 the multipart pipe is never orphaned: once the writer goroutine is started, every error return of buildHTTP releases the read end (a deferred guard that closes it unless the request was built, armed before the go statement, and disarmed only on the success return); R12.4 in the goroutine the closing of ALL upload files and of the pipe writer is registered before anything can fail, and every failing step reaches pw.CloseWithError (a failing upload source can never look like a complete body); " +
 			"R12.5 keep-alive body: Close always closes the wrapped body and returns its error, drains only when the end was not seen, the end is recorded only on io.EOF or a zero-byte read, and the transport wraps only successful responses; R12.6 the only goroutines started by client calls are the multipart writer (and the CSV producer's errgroup). " +
 			"R12.5 also: every successful response leaves the keep-alive RoundTrip with its body wrapped (only a nil or http.NoBody body may stay unwrapped). " +
+			"R12.5 also: EnableConnectionReuse installs the draining transport in the client the runtime already holds, else in Runtime.Transport. " +
 			"NOT decided: wall-clock bounds, behaviour of net/http and of servers.",
 		Run: runC12,
 	})
